@@ -1,6 +1,7 @@
 import MosdnsVerif.Lemmas.C20Inv
 import MosdnsVerif.Model.C20Pool
 import MosdnsVerif.Model.C20Time
+import MosdnsVerif.Model.C20Copy
 import MosdnsVerif.Refine.C20
 import MosdnsVerif.Gen.Facts
 
@@ -399,13 +400,104 @@ example :
 
 end Time
 
+/-! ### The queries the workers run on ("workers run on copies of the query context")
+
+`Model.C20Copy`: the caller's, the primary's and the secondary's query after `qCtx.Copy()` twice,
+under any sequence of edits of / looks at their own query by the two workers. With deep copies a
+worker reads what it would read if it were alone with the caller's query: nothing the other branch
+does to ITS query (`ecs_handler`, `forward_edns0opt` in one branch only) reaches the query this
+branch sends upstream, in either order, and the caller's query is what it was. So "the secondary's
+answer" that `fallback_safe` speaks of is an answer to the caller's query, not to a query the
+primary wrote. -/
+section copies
+open Model.C20Copy
+
+theorem sees_deep (w : Who) (c : Cells) (evs : List Ev) : sees true w c evs = solo w (c.get w) evs := by
+  induction evs generalizing c with
+  | nil => rfl
+  | cons ev evs ih =>
+    cases ev with
+    | edit w' e =>
+      simp only [sees, solo]
+      rw [ih]
+      cases w <;> cases w' <;> simp [Cells.edit, Cells.get]
+    | look w' =>
+      simp only [sees, solo]
+      rw [ih]
+
+theorem final_deep_caller (c : Cells) (evs : List Ev) : (final true c evs).caller = c.caller := by
+  induction evs generalizing c with
+  | nil => rfl
+  | cons ev evs ih =>
+    cases ev with
+    | edit w e =>
+      simp only [final]
+      rw [ih]
+      cases w <;> simp [Cells.edit]
+    | look w => simp only [final]; exact ih c
+
+/-- **Workers share nothing with each other or with the caller.** For every caller's query and every
+interleaving of the two workers' edits and reads: each worker reads exactly what it would read alone,
+and the caller's query is unchanged afterwards. -/
+theorem workers_run_on_private_queries (q : Opts) (evs : List Ev) :
+    sees true .prim (fork q) evs = solo .prim q evs ∧ sees true .sec (fork q) evs = solo .sec q evs ∧
+    (final true (fork q) evs).caller = q :=
+  ⟨sees_deep .prim (fork q) evs, sees_deep .sec (fork q) evs, final_deep_caller (fork q) evs⟩
+
+/-- a branch that does not edit its query sends the caller's query, whatever the other branch does to its own -/
+theorem unedited_branch_sends_callers_query (w : Who) (q : Opts) (evs : List Ev)
+    (h : ∀ e, Ev.edit w e ∉ evs) : ∀ o ∈ sees true w (fork q) evs, o = q := by
+  rw [sees_deep]
+  have hq : (fork q).get w = q := by cases w <;> rfl
+  rw [hq]
+  clear hq
+  induction evs generalizing q with
+  | nil => intro o ho; cases ho
+  | cons ev evs ih =>
+    have h' : ∀ e, Ev.edit w e ∉ evs := fun e hm => h e (List.mem_cons_of_mem _ hm)
+    cases ev with
+    | edit w' e =>
+      have hne : ¬ w' = w := fun heq => h e (by rw [heq]; exact List.mem_cons_self ..)
+      simp only [solo, hne, if_false]
+      exact ih q h'
+    | look w' =>
+      simp only [solo]
+      split
+      · intro o ho
+        cases ho with
+        | head => rfl
+        | tail _ hm => exact ih q h' o hm
+      · exact ih q h'
+
+/-- the copies of this tree: `Context.CopyTo` deep-copies the query message and `doFallback` runs each
+worker on such a copy (regenerated facts) -/
+def treeCopiesDeep : Bool :=
+  Gen.Facts.c20CopyToQueryDeep == some true && Gen.Facts.c20WorkersRunOnCopies == some true
+
+theorem workers_private_in_this_tree (q : Opts) (evs : List Ev) :
+    sees treeCopiesDeep .sec (fork q) evs = solo .sec q evs ∧ sees treeCopiesDeep .prim (fork q) evs = solo .prim q evs ∧
+    (final treeCopiesDeep (fork q) evs).caller = q := by
+  have h : treeCopiesDeep = true := by decide
+  rw [h]
+  exact ⟨sees_deep .sec (fork q) evs, sees_deep .prim (fork q) evs, final_deep_caller (fork q) evs⟩
+
+/-- Witness: with a copy that keeps the OPT record of its origin, the client-subnet option (code 8) the primary
+adds to its query is in the query the secondary sends and in the caller's query afterwards. -/
+theorem shared_opt_is_wrong :
+    sees false .sec (fork []) [.edit .prim (.add 8), .look .sec] = [[8]] ∧
+    solo .sec [] [.edit .prim (.add 8), .look .sec] = [[]] ∧
+    (final false (fork []) [.edit .prim (.add 8), .look .sec]).caller = [8] := by decide
+
+end copies
+
 /-! ### Guards over the regenerated facts -/
 theorem facts_guard :
     Gen.Facts.c20PrimarySendsBeforeClose = some true ∧ Gen.Facts.c20PrimaryFailClosesThenSendsNil = some true ∧
     Gen.Facts.c20RespChanCap = some 2 ∧ Gen.Facts.c20FirstSelectCases = some true ∧
     Gen.Facts.c20SecondSelectCases = some true ∧ Gen.Facts.c20CollectLoop = some true ∧
     Gen.Facts.c20ThresholdTimerFromPool = some true ∧ Gen.Facts.c20ReleaseTimerDrains = some true ∧
-    Gen.Facts.c20GetTimerOnlyResets = some true := by decide
+    Gen.Facts.c20GetTimerOnlyResets = some true ∧
+    Gen.Facts.c20CopyToQueryDeep = some true ∧ Gen.Facts.c20WorkersRunOnCopies = some true := by decide
 
 /-! ### Non-vacuity: an in-time primary with a finished standby secondary; a slow primary -/
 example : (run ⟨true, true, true, true⟩ init [.sStart, .sFinish, .pFinish, .pOp, .pOp, .sWaitDone, .mRecv]).map (·.result) = some .prim := by decide
